@@ -38,7 +38,6 @@ package c10
 import (
 	"encoding/json"
 	"fmt"
-	"math"
 	"os"
 	"runtime"
 	"sort"
@@ -88,7 +87,7 @@ type Case struct {
 	Workers   int        `json:"workers"`
 	FailFirst bool       `json:"fail_first"`
 	Rules     []RuleSpec `json:"rules"`
-	Roots     []int      `json:"roots"` // kind of the root event of each cascade
+	Roots     []int      `json:"roots"`            // kind of the root event of each cascade
 	Reused    bool       `json:"reused,omitempty"` // the processor has been started, finished and Reset() once before the rules are added (what the CLI does before every load); the setting was made before
 }
 
@@ -290,8 +289,8 @@ func execute(c Case) (*observation, *hx.Failure, bool) {
 	obs := &observation{rec: rec}
 
 	proc := engine.NewProcessor(c.Workers)
-	// the default "queue is filling up" warning only writes to stderr
-	proc.ThreadPool().TooManyThreshold = math.MaxInt32
+	// (the processor is used as NewProcessor configures it: the "queue is filling up" threshold of 10 stays in force,
+	// its warning goes to stderr)
 	proc.SetFailOnFirstErrorInTriggerSequence(c.FailFirst)
 	if c.Reused {
 		// a processor which is used again: settings are made once (NewECALRuntimeProvider), rules come and go
@@ -1101,6 +1100,15 @@ func TestRegress(t *testing.T) {
 	failInconclusive(t)
 }
 
+// rep is n additions of an event of the given kind and priority
+func rep(n, kind, prio int) []Add {
+	var out []Add
+	for i := 0; i < n; i++ {
+		out = append(out, Add{Kind: kind, Prio: prio})
+	}
+	return out
+}
+
 // directed shapes, each run with workers {1,4} x fail-on-first-error {off,on}
 func directedCases() []Case {
 	shapes := []Case{
@@ -1114,6 +1122,15 @@ func directedCases() []Case {
 		{Rules: []RuleSpec{{Kind: 0, Prio: 0, Adds: []Add{{Kind: 1, Prio: 5}, {Kind: 1, Prio: 3}, {Kind: 2, Prio: 3}, {Kind: 1, Prio: 0}}}, {Kind: 1, Prio: 0, Adds: []Add{{Kind: 2, Prio: 4}}}, {Kind: 2, Prio: 0}}, Roots: []int{0}},
 		// all six priorities active at once, finishing in an order which exercises the removal from the priority heap
 		{Rules: []RuleSpec{{Kind: 0, Prio: 0, Adds: []Add{{Kind: 1, Prio: 3}, {Kind: 1, Prio: 1}, {Kind: 1, Prio: 4}, {Kind: 1, Prio: 5}}}, {Kind: 0, Prio: 1, Adds: []Add{{Kind: 1, Prio: 2}}}, {Kind: 1, Prio: 0}}, Roots: []int{0}},
+		// wide cascades: 18 events are queued for one cascade while the root event's rules still run (more than the
+		// processor's queue-is-filling-up threshold of 10): equal priorities first, then lower and higher ones
+		{Rules: []RuleSpec{{Kind: 0, Prio: 0, Adds: rep(6, 1, 1)}, {Kind: 0, Prio: 1, Adds: rep(6, 1, 1)}, {Kind: 0, Prio: 2, Adds: append(rep(4, 1, 5), rep(2, 1, 0)...)}, {Kind: 1, Prio: 0}}, Roots: []int{0}},
+		// ... in descending priority
+		{Rules: []RuleSpec{{Kind: 0, Prio: 0, Adds: append(rep(4, 1, 5), rep(2, 1, 4)...)}, {Kind: 0, Prio: 1, Adds: append(rep(3, 1, 3), rep(3, 1, 2)...)}, {Kind: 0, Prio: 2, Adds: append(rep(3, 1, 1), rep(3, 1, 0)...)}, {Kind: 1, Prio: 0}}, Roots: []int{0}},
+		// ... every child adds a grandchild while the queue is still long; skipped events in between
+		{Rules: []RuleSpec{{Kind: 0, Prio: 0, Adds: append(rep(5, 1, 2), rep(1, 5, 2)...)}, {Kind: 0, Prio: 1, Adds: append(rep(5, 1, 2), rep(1, 4, 0)...)}, {Kind: 0, Prio: 2, Adds: rep(6, 1, 3)}, {Kind: 1, Prio: 0, Adds: []Add{{Kind: 2, Prio: 1}, {Kind: 2, Prio: 4}}}, {Kind: 2, Prio: 0}}, Roots: []int{0}},
+		// ... two wide cascades at once
+		{Rules: []RuleSpec{{Kind: 0, Prio: 0, Adds: rep(6, 1, 1)}, {Kind: 0, Prio: 1, Adds: append(rep(3, 1, 4), rep(3, 1, 0)...)}, {Kind: 1, Prio: 0}}, Roots: []int{0, 0}},
 		// three cascades at once
 		{Rules: []RuleSpec{{Kind: 0, Prio: 1, Adds: []Add{{Kind: 1, Prio: 4}, {Kind: 1, Prio: 2}}}, {Kind: 0, Prio: 0, Fail: true}, {Kind: 1, Prio: 2, Fail: true}, {Kind: 1, Prio: 2}}, Roots: []int{0, 0, 1}},
 	}
@@ -1145,7 +1162,7 @@ func TestExhaustive(t *testing.T) {
 		violated = violated || f != nil
 		return f
 	})
-	hx.E.Exhaustive("directed", map[string]interface{}{"cases": len(cases), "what": "6 fixed cascade shapes (skipped child next to the running root; skipped next to triggering siblings; failing middle rule which adds an event; descending priorities with ties; six priorities active at once; three cascades) x workers {1,4} x fail-on-first-error {off,on}"})
+	hx.E.Exhaustive("directed", map[string]interface{}{"cases": len(cases), "what": "10 fixed cascade shapes (4 wide ones: 12-18 events queued for one cascade while the root event's rules still run; skipped child next to the running root; skipped next to triggering siblings; failing middle rule which adds an event; descending priorities with ties; six priorities active at once; three cascades) x workers {1,4} x fail-on-first-error {off,on}"})
 	if violated {
 		return
 	}
